@@ -10,14 +10,19 @@ import (
 type Locker = sync.Locker
 
 type Mutex struct {
-	m    sync.Mutex
-	held bool
+	m     sync.Mutex
+	held  bool
+	owner int // scheduler thread id + 1 of the holder (deadlock cycle reporting)
 }
+
+// Owner returns the scheduler thread holding the mutex, or -1.
+func (m *Mutex) Owner() int { return m.owner - 1 }
 
 func (m *Mutex) Lock() {
 	if x := sched.Cur(); x != nil {
 		x.Point("Lock", m, func() bool { return !m.held })
 		m.held = true
+		m.owner = x.RunningID() + 1
 	}
 	m.m.Lock()
 }
@@ -25,6 +30,7 @@ func (m *Mutex) Lock() {
 func (m *Mutex) Unlock() {
 	if sched.Cur() != nil {
 		m.held = false
+		m.owner = 0
 	}
 	m.m.Unlock()
 }
@@ -36,6 +42,7 @@ func (m *Mutex) TryLock() bool {
 			return false
 		}
 		m.held = true
+		m.owner = x.RunningID() + 1
 		m.m.Lock()
 		return true
 	}
@@ -46,12 +53,17 @@ type RWMutex struct {
 	m       sync.RWMutex
 	writer  bool
 	readers int
+	owner   int
 }
+
+// Owner returns the scheduler thread holding the write lock, or -1.
+func (m *RWMutex) Owner() int { return m.owner - 1 }
 
 func (m *RWMutex) Lock() {
 	if x := sched.Cur(); x != nil {
 		x.Point("Lock", m, func() bool { return !m.writer && m.readers == 0 })
 		m.writer = true
+		m.owner = x.RunningID() + 1
 	}
 	m.m.Lock()
 }
@@ -59,6 +71,7 @@ func (m *RWMutex) Lock() {
 func (m *RWMutex) Unlock() {
 	if sched.Cur() != nil {
 		m.writer = false
+		m.owner = 0
 	}
 	m.m.Unlock()
 }
